@@ -8,7 +8,9 @@ Oracle (vf.oracle.c12_floquet on top of the SymPy/SciPy reference model vf.oracl
 STM history, its eigen-decomposition or its sampling grid): for a seed s
   1. candidates t* = local minimisers of |x(t) - s| on the oracle's own dense orbit x(t) = phi_t(x0), t in [-T, T]
      (the corrected orbit closes only up to ~1e-10, so t and t -+ T are distinct, equally legitimate orbit points;
-     the statement is existential in the orbit point, so a seed passes when ANY candidate passes);
+     the statement is existential in the orbit point, so a seed passes when ANY candidate satisfies the direction
+     and the magnitude requirement of item 4 jointly; the closure drift between t and t -+ T lies mostly along the
+     expanding direction, i.e. along v itself: invisible to the direction test, visible in beta);
   2. at x(t*) the exact monodromy is integrated over one period starting from that point (backward for the stable
      direction, forward for the unstable one) and its dominant eigenvector is the Floquet direction v;
   3. s - x(t) = alpha f + beta v (least squares), t <- t + alpha, repeated with everything recomputed at the new
@@ -73,6 +75,7 @@ ASSUMPTIONS = [
     "side consistency is asserted with the orientation of v continued along the orbit; it is well defined because the domain has positive multipliers",
     "trajectory-vs-flow comparison: absolute bound 1e3*eps_lib*|D phi_t(seed)|*(1+|y|) for method='adaptive'; for fixed-step methods (dt <= 1e-2, order >= 4, |t| <= 1) only the discriminating form error(signed time) <= 0.1*error(opposite time)",
     "a compute() that raises or retains no trajectory is counted in the class histogram, not judged (the statement is about the initial conditions of a computed manifold)",
+    "no Hypothesis shrink pass (one evaluation = orbit correction + manifold computation, seconds each): the stored payload is one generated case restricted to one seed (only_seed)",
 ]
 
 EPS = float(np.finfo(float).eps)
@@ -253,6 +256,9 @@ def _check_seed(ref, s, d, stable):
     if not cands or cands[0][0] > 1e3 * d:
         return {"kind": "far", "dist": cands[0][0] if cands else float("inf"), "ok_dir": False, "sine": 1.0, "tol": 0.0,
                 "t": cands[0][1] if cands else 0.0, "terms": {}, "sign": 0, "pos_ratio": float("nan"), "mag_tol": 0.0, "orient_ok": False}
+    # The statement is existential in the orbit point: the seed passes when SOME candidate base point satisfies the
+    # direction AND the magnitude requirement (t and t -+ T differ by the closure drift, which is mostly along the
+    # expanding direction, i.e. along v itself: invisible to the direction test, visible in beta).
     best = None
     for dist, t in cands:
         if dist > 10.0 * cands[0][0] + 1e-12:
@@ -263,9 +269,13 @@ def _check_seed(ref, s, d, stable):
                "sign": (1 if r["beta"] > 0 else -1), "orient_ok": r["orient_cos"] >= 0.5,
                "pos_ratio": r["pos_norm"] / d, "mag_tol": tol / max(r["sigma_min"], 1e-6), "t": r["t"], "dist": r["ne"],
                "alpha": r["alpha"], "sigma_min": r["sigma_min"], "iters": r["iters"]}
-        if best is None or cur["sine"] / cur["tol"] < best["sine"] / best["tol"]:
+        cur["ok_mag"] = abs(cur["pos_ratio"] - 1.0) <= cur["mag_tol"]
+        # ranking of failing candidates for the report: direction first, then magnitude
+        cur["rank"] = (0, 0.0) if (cur["ok_dir"] and cur["ok_mag"]) else (
+            (1, abs(cur["pos_ratio"] - 1.0) / cur["mag_tol"]) if cur["ok_dir"] else (2, cur["sine"] / cur["tol"]))
+        if best is None or cur["rank"] < best["rank"]:
             best = cur
-        if cur["ok_dir"]:
+        if cur["ok_dir"] and cur["ok_mag"]:
             break
     return best
 
@@ -364,7 +374,7 @@ def eval_case(case, ctx):
                               {k: float("%.2e" % v) for k, v in r["terms"].items()}, ref.lam_u)))
             continue
         _margins.append((r["sine"] / r["tol"], br, r["t"] / ref.T, d))
-        if r["kind"] == "general" and abs(r["pos_ratio"] - 1.0) > r["mag_tol"]:
+        if r["kind"] == "general" and not r["ok_mag"]:
             fails.append(("seed-displacement-magnitude:" + br, dict(c, only_seed=i),
                           where + ": |beta|*|v[0:3]|/displacement = %.6f, tolerance %.2e" % (r["pos_ratio"], r["mag_tol"])))
         if r["orient_ok"]:
